@@ -1,15 +1,27 @@
 #include <yaclib/fault/detail/fiber/queue.hpp>
+#ifdef YACLIB_VERIF
+#  include <yaclib/fault/verif.hpp>
+#endif
 
 namespace yaclib::detail::fiber {
 
 WaitStatus FiberQueue::Wait(NoTimeoutTag) {
   auto* fiber = fault::Scheduler::Current();
   _queue.PushBack(static_cast<BiNodeWaitQueue*>(fiber));
+#ifdef YACLIB_VERIF
+  verif::OnSync(this, verif::kPark, 0);
+#endif
   fault::Scheduler::Suspend();
+#ifdef YACLIB_VERIF
+  verif::OnSync(this, verif::kWake, 0);
+#endif
   return WaitStatus::Ready;
 }
 
 void FiberQueue::NotifyAll() {
+#ifdef YACLIB_VERIF
+  verif::OnSync(this, verif::kNotifyAll, _queue.Empty() ? 0 : 1);
+#endif
   auto all = std::move(_queue);
   _queue = BiList();
   while (!all.Empty()) {
@@ -19,6 +31,9 @@ void FiberQueue::NotifyAll() {
 }
 
 void FiberQueue::NotifyOne() {
+#ifdef YACLIB_VERIF
+  verif::OnSync(this, verif::kNotifyOne, _queue.Empty() ? 0 : 1);
+#endif
   if (_queue.Empty()) {
     return;
   }
